@@ -84,7 +84,10 @@ func (l *lexer) Lex(lval *yySymType) int {
 			return lval.yys
 
 		case scanner.Int:
-			v, _ := strconv.ParseInt(text, 10, 64)
+			v, err := strconv.ParseInt(text, 10, 64)
+			if err != nil {
+				return yyLexErrorf(l, "invalid integer %q: %v", text, err)
+			}
 			lval.yys = INTEGER
 			lval.integer = int(v)
 
